@@ -35,9 +35,15 @@ def definitions():
 
 def main():
     cov = {k: {int(a): b for a, b in v.items()} for k, v in json.load(open(sys.argv[1])).items()}
-    never_inst = collections.defaultdict(list); never_exec = collections.defaultdict(list); n = 0
+    never_inst = collections.defaultdict(list); never_exec = collections.defaultdict(list); n = 0; nmacro = 0
+    src = {}
     for f, a, b, name in definitions():
         if not f.startswith(REPO + "/include/adept/"):
+            continue
+        if f not in src:
+            src[f] = open(f, errors="replace").read().split("\n")
+        if src[f][a - 1].rstrip().endswith("\\") or (a >= 2 and src[f][a - 2].rstrip().endswith("\\")):
+            nmacro += 1          # body spelled inside a #define: gcov attributes its lines to the expansion site, not to these lines
             continue
         n += 1
         lines = cov.get(f, {})
@@ -51,6 +57,7 @@ def main():
     print("## Function definitions the harnesses never reach\n")
     print("clang lists %d function definitions spelled in `include/adept/*.h`; %d are instantiated by no harness object (gcov has no" % (n, ni))
     print("executable line inside them: the line table above cannot see them at all), %d are instantiated but never executed." % ne)
+    print("(%d further definitions are spelled inside a `#define` and cannot be attributed: gcov counts them at the expansion site.)" % nmacro)
     print("Formatting helpers (`expression_string_`, `info_string`, `print*`, `operator<<` on streams) are listed too.\n")
     for title, tab in (("never instantiated", never_inst), ("instantiated, never executed", never_exec)):
         print("### %s\n" % title)
